@@ -82,7 +82,7 @@ Lit(ty, s) == CASE ty = "int"   -> [n |-> "int", v |-> <<0, 1, 2, 3, 5, 7, 10, 2
                                    ELSE [n |-> "str", v |-> << <<"a">>, <<"f","o","o">>, <<"B","a","Z">>, <<>>, <<"x","_","y">>, <<"4","2">> >>[Ch(s, 6)]]
 NzLit(ty, s) == CASE ty = "int" -> [n |-> "int", v |-> <<1, 2, 3, 5, 7, -2>>[Ch(s, 6)]]
                   [] OTHER      -> [n |-> "float", v |-> << <<2,1>>, <<1,2>>, <<4,1>> >>[Ch(s, 3)]]
-CapRef(c, s) == [n |-> "cap", p |-> c.p, g |-> Abs(c.g), byname |-> (c.name # "" /\ (c.g < 0 \/ Coin(s, 1, 2))), name |-> c.name]
+CapRef(c, s) == [n |-> "cap", p |-> c.p, slot |-> c.slot, g |-> Abs(c.g), byname |-> (c.name # "" /\ (c.g < 0 \/ Coin(s, 1, 2))), name |-> c.name]
 
 RECURSIVE GenExpr(_, _, _, _), GenExprT(_, _, _, _), GenIdx(_, _, _, _), GenCmp(_, _, _)
 
@@ -206,12 +206,13 @@ GenCmp(scope, depth, s) ==
       r  == IF Coin(l.s, 1, 2) THEN G(Lit(rt, Rnd(l.s)), Rnd(Rnd(l.s))) ELSE GenExpr(rt, scope, depth, Rnd(l.s))
   IN G(Bin(op, l.x, r.x), r.s)
 
-ScopeWith(pats, p, outer) ==      \* captures of pattern p shadow outer numbered captures of the same index
-  LET mine == [g \in 1..Len(pats[p].caps) |-> [p |-> p, g |-> g, k |-> pats[p].caps[g].k, name |-> pats[p].caps[g].name]]
+ScopeWithSlot(pats, p, outer, slot) ==      \* captures of pattern p shadow outer numbered captures of the same index
+  LET mine == [g \in 1..Len(pats[p].caps) |-> [p |-> p, slot |-> slot, g |-> g, k |-> pats[p].caps[g].k, name |-> pats[p].caps[g].name]]
       keep == SelectSeq(outer, LAMBDA c : Abs(c.g) > Len(pats[p].caps) \/ c.name # "")
       \* an outer capture whose index is shadowed stays reachable by name only
       fix == [i \in 1..Len(keep) |-> IF Abs(keep[i].g) <= Len(pats[p].caps) THEN [keep[i] EXCEPT !.g = -Abs(keep[i].g)] ELSE keep[i]]
   IN mine \o fix
+ScopeWith(pats, p, outer) == ScopeWithSlot(pats, p, outer, p)
 \* captures with a negative g can only be written $name: CapRef honours that.
 \* The else block of a conditional lies in the scope of the conditional too: the numbered captures of its
 \* pattern shadow outer ones there as well (and are useless, the pattern did not match), so the else block may
@@ -240,7 +241,15 @@ GenCond(pats, scope, s) ==
   IN IF c <= 6 THEN G([c |-> [n |-> "pat", p |-> p], scope |-> sc, escope |-> se], s2)
      ELSE IF c <= 8 THEN LET r == GenCmp(sc, 1, s2) IN G([c |-> Bin("&&", [n |-> "pat", p |-> p], r.x), scope |-> sc, escope |-> se], r.s)
      ELSE IF c = 9 THEN LET r == GenCmp(se, 1, s2) IN G([c |-> Bin("||", [n |-> "pat", p |-> p], r.x), scope |-> sc, escope |-> se], r.s)
-     ELSE IF c <= 11 THEN LET r == GenCmp(scope, 1, s2) IN G([c |-> r.x, scope |-> scope, escope |-> scope], r.s)
+     ELSE IF c = 10 THEN LET r == GenCmp(scope, 1, s2) IN G([c |-> r.x, scope |-> scope, escope |-> scope], r.s)
+     ELSE IF c = 11 THEN
+          \* comparison || / && (string =~ /pattern with captures/) : the match instruction runs only when the
+          \* comparison does not decide; the block may refer to the pattern's captures
+          LET r == GenCmp(scope, 0, s2)
+              a == GenLeafNoVar("string", scope, r.s)
+              slot == 1000 + (a.s % 1000000)                    \* a capture slot of this match site alone
+          IN G([c |-> Bin(IF Coin(a.s, 2, 3) THEN "||" ELSE "&&", r.x, [n |-> "pmatch", l |-> a.x, p |-> p, slot |-> slot]),
+                scope |-> ScopeWithSlot(pats, p, scope, slot), escope |-> se], Rnd(a.s))
      ELSE LET a == GenLeaf("string", scope, s2)
               lit == << <<"f","o">>, <<"a">>, <<"l","o","g","A">>, <<"B">> >>[Ch(a.s, 4)]
           IN G([c |-> [n |-> "smatch", l |-> a.x, s |-> lit, a |-> Coin(a.s, 1, 2), neg |-> Coin(Rnd(a.s), 1, 3)], scope |-> scope, escope |-> scope], Rnd(Rnd(a.s)))
@@ -344,7 +353,7 @@ UsedE(e) ==
   CASE e.n \in {"int", "float", "str", "cap", "pat"} -> {}
     [] e.n = "var" -> {e.m} \cup UsedEs(e.idx)
     [] e.n = "bin" -> UsedE(e.l) \cup UsedE(e.r)
-    [] e.n = "smatch" -> UsedE(e.l)
+    [] e.n \in {"smatch", "pmatch"} -> UsedE(e.l)
     [] e.n \in {"assign", "addassign"} -> {e.m} \cup UsedEs(e.idx) \cup UsedE(e.r)
     [] e.n \in {"inc", "dec"} -> {e.m} \cup UsedEs(e.idx)
     [] e.n = "call" -> UsedEs(e.args)
